@@ -61,15 +61,26 @@ CAPS = {                       # capability -> census keys that realise it
 MINORS = list(range(51, 91))
 
 
+H_VT = """struct VT_plain { virtual int a(int); virtual void b(); int x; };
+struct VT_vec { virtual int __attribute__((vectorcall)) vc(int, float); int y; };
+struct VT_ms { virtual int __attribute__((ms_abi)) w(int); virtual void plain(); };
+struct VT_user { VT_plain *p; VT_vec *q; VT_ms *r; };
+"""
+
+
 def gen(d, header, flags, target, edition, tag):
     out = os.path.join(d, "o_%s.rs" % tag)
     fl = list(flags)
+    cargs = []
+    if "--" in fl:
+        k_ = fl.index("--")
+        fl, cargs = fl[:k_], fl[k_:]
     if target:
         fl += ["--rust-target", target]
     if edition:
         fl += ["--rust-edition", edition]
-    rc, so, se, _ = sh([build.BINDGEN, header] + fl + ["-o", out], timeout=60, cpu=60)
-    return rc, out, se, fl
+    rc, so, se, _ = sh([build.BINDGEN, header] + fl + ["-o", out] + cargs, timeout=60, cpu=60)
+    return rc, out, se, fl + cargs
 
 
 def run(chk):
@@ -79,6 +90,10 @@ def run(chk):
     void_first = "int buf_len(const void *buf);\nvoid *vp_first;\n"
     headers.append(("plain-voidfirst", write(os.path.join(d, "plain_vf.h"), void_first + H_PLAIN), FLAGS_PLAIN))
     headers.append(("abi-voidfirst", write(os.path.join(d, "abi_vf.h"), void_first + H_ABI), FLAGS_ABI))
+    # vtable structs carry one function pointer per virtual method: their ABI strings obey the same gates
+    vt = write(os.path.join(d, "vt.hpp"), H_VT)
+    headers.append(("vtable", vt, ["--vtable-generation", "--", "-x", "c++", "-std=c++14"]))
+    headers.append(("vtable-win32", vt, ["--vtable-generation", "--use-core", "--", "-x", "c++", "-std=c++14", "--target=i686-pc-windows-msvc"]))
     headers.append(("plain-reversed", write(os.path.join(d, "plain_rev.h"), "\n".join(reversed(H_PLAIN.strip().split("\n"))) + "\n"), FLAGS_PLAIN))
     targets = [("1.%d" % m, m) for m in MINORS]
     for m in (51, 64, 77, 82, 85):
